@@ -221,7 +221,8 @@ thread_local int tl_layout_depth = 0;
 thread_local bool tl_size_probe = false;
 thread_local size_t tl_probe_max = 0;
 }
-#ifdef SIM_TSAN
+#if defined(SIM_TSAN) || defined(SIM_WRAP_NEW)
+// (plain flavour too: under valgrind a replaced operator new that calls malloc is reported as a mismatched free)
 // The TSan runtime defines operator new/delete itself (whole-archive); interpose at link time
 // instead: -Wl,--wrap=_Znwm,... routes the references of this translation unit here.
 extern "C" {
